@@ -115,7 +115,7 @@ def run(check_spec: str, kind: str, k: int, cfgs, function: str, contract: str, 
     workers = workers or min(16, os.cpu_count() or 4)
     if kind == "lines":
         parts = range(len(U.V))
-        universe = f"all sequences of <= {k} lines over the {len(U.V)}-shape vocabulary, with/without final newline" + (", x 7 container wrappers" if opts.get("wrapped") else "")
+        universe = f"all sequences of <= {k} lines over the {len(U.V)}-shape vocabulary, with/without final newline" + (", x 9 container wrappers" if opts.get("wrapped") else "")
         bound = f"k={k}"
     elif kind == "inline":
         parts = range(len(U.INLINE_FRAGS))
